@@ -32,6 +32,36 @@ CHECKS = {
     "C18": dict(
         text="Real config_context nestings with symbolic option values/None-ness/exception flags (restoration and honouring proved per path); CrossHair on the real env parser with a symbolic environment; depth algebra acc_SAD <=> acc_SO and acc_DO and restriction laws on symbolic frames; polars default-depth truth table.",
         ref="4/C18", tech="symbolic execution (symx) + CrossHair (z3) on string-valued environment parsing"),
+    "C05": dict(
+        text="Histories of public-API operations chosen by the solver (engine.choice per step), the data of each validating step symbolic; fingerprint of the schema object graph and the verdict on a symbolic probe compared with a fresh schema after every prefix.",
+        ref="4/C05", tech="symbolic execution over operation histories (solver-chosen next operation) + z3"),
+    "C08": dict(
+        text="The two real implementations of every built-in check and the two real check back ends run on the same symbolic column (symframe vs sympolars); z3 decides verdict and failing-row agreement for all cells, nulls and arguments; label-level twin functions compared on real frames per solver-chosen option.",
+        ref="4/C08", tech="differential symbolic execution of the pandas and polars implementations + z3 equivalence queries"),
+    "C12": dict(
+        text="serialize/deserialize run on schemas with symbolic attributes under a YAML/JSON contract stub; pandera's own __eq__ (a symbolic Boolean) and dictionary equality are discharged by z3; every path witness is also pushed through the real YAML/JSON/to_script text level (concrete complement, not solver-decided).",
+        ref="4/C12", tech="symbolic execution with contract stubs for the text codecs + z3; concrete replay of witnesses through the real codecs"),
+    "C13": dict(
+        text="The real strategy algebra runs on constraint-collecting stand-ins for hypothesis constructors; z3 proves constraints(x) => all real checks pass on [x] for every chain of built-in checks within the bound; counterexamples replayed with hypothesis.find on the real strategy.",
+        ref="4/C13", tech="symbolic execution with contract stubs for hypothesis + z3 implication queries"),
+    "C14": dict(
+        text="infer_schema and the following validate run on symbolic frames (accept, identity, tightness of bounds, survival of serialisation) plus a bit-precise QF_BVFP lemma over all int64 pairs for the float() conversion of inferred bounds (cvc5, z3).",
+        ref="4/C14", tech="symbolic execution + z3; QF_BVFP lemma discharged by cvc5/z3"),
+    "C15": dict(
+        text="Transformation methods run on schemas whose every scalar attribute is symbolic; untouched attributes are compared term by term, inverse laws through pandera's __eq__, mirror law accept(S,D) => accept(op(S),op(D)) on symbolic frames.",
+        ref="4/C15", tech="symbolic execution over schema attributes and frames + z3"),
+    "C16": dict(
+        text="Class bodies (single, inheritance with overrides, Optional/alias, @check/@dataframe_check, Config) are instantiated per path with symbolic Field arguments; verdict of Model.validate vs the equivalent DataFrameSchema on symbolic frames, to_schema stability, parents unchanged.",
+        ref="4/C16", tech="symbolic execution of the model compiler and both validation routes + z3"),
+    "C17": dict(
+        text="Decorated functions over a family of signatures/designations/call shapes with symbolic frames and solver-chosen validation options; gate, transparency and option honouring asserted per path against direct validation.",
+        ref="4/C17", tech="symbolic execution of the decorator wrappers + z3"),
+    "C19": dict(
+        text="Metamorphic pairs executed in one path on the same symbolic data (element_wise vs vectorised, ignore_na, n_failure_cases, raise_warning, groupby, aliases); equalities of verdicts and failure slots discharged by z3.",
+        ref="4/C19", tech="symbolic execution of metamorphic pairs + z3 equivalence queries"),
+    "C20": dict(
+        text="head/tail/sample with solver-chosen sizes and a nondeterministic sample stub (one Boolean per position); z3 proves the verdict equals the positional oracle and that the whole object is returned.",
+        ref="4/C20", tech="symbolic execution with a nondeterministic sample stub + z3"),
 }
 
 NOT_APPLICABLE = {
